@@ -12,6 +12,9 @@ import (
 	"github.com/daeuniverse/dae/common/consts"
 	ob "github.com/daeuniverse/dae/component/outbound"
 	"github.com/daeuniverse/dae/component/outbound/dialer"
+	"github.com/bits-and-blooms/bloom/v3"
+	"github.com/daeuniverse/dae/common/netutils"
+	"github.com/daeuniverse/outbound/netproxy"
 	"github.com/sirupsen/logrus"
 	vs "github.com/daeuniverse/dae/zz_vs"
 )
@@ -233,4 +236,46 @@ func Verif_C18_rerouted() {
 	if final == consts.OutboundDirect {
 		vs.Assert("direct traffic is dialled by its original address", res.DialTarget == "10.1.2.3:443" && res.IsDialIp)
 	}
+}
+
+// Verif_C18_probe: the verification probe that decides whether a sniffed name may be dialled by name
+// in domain mode. The two address-family lookups end independently - with an address, with "no such
+// record", or with an error (all combinations symbolic): the name counts as genuine only if some
+// lookup produced an address; a probe that produced none never verifies the name, whatever mix of
+// errors and empty answers it saw.
+func Verif_C18_probe() {
+	has4, has6 := vs.Bool("a.found"), vs.Bool("aaaa.found")
+	err4, err6 := vs.Bool("a.error"), vs.Bool("aaaa.error")
+	vs.Assume(!(has4 && err4) && !(has6 && err6)) // a lookup does not both fail and return an address
+	added := 0
+	vs.Replace("(*github.com/daeuniverse/dae/control.ControlPlane).lookupRealDomainCache",
+		func(c *ControlPlane, domain string) (bool, bool) { return false, false })
+	vs.Replace("(*github.com/daeuniverse/dae/control.ControlPlane).resolveIp46WithBootstrapResolvers",
+		func(c *ControlPlane, ctx context.Context, host string, network string, race bool,
+			resolve func(context.Context, netproxy.Dialer, netip.AddrPort, string, string, bool) (*netutils.Ip46, error, error)) (*netutils.Ip46, error, error) {
+			r := &netutils.Ip46{}
+			if has4 {
+				r.Ip4 = netip.AddrFrom4([4]byte{203, 0, 113, 7})
+			}
+			if has6 {
+				r.Ip6 = netip.MustParseAddr("2001:db8::7")
+			}
+			var e4, e6 error
+			if err4 {
+				e4 = context.DeadlineExceeded
+			}
+			if err6 {
+				e6 = context.DeadlineExceeded
+			}
+			return r, e4, e6
+		})
+	vs.Replace("(*github.com/bits-and-blooms/bloom/v3.BloomFilter).AddString",
+		func(f *bloom.BloomFilter, s string) *bloom.BloomFilter { added++; return f })
+	cp := &ControlPlane{}
+	cp.ctx = context.Background()
+	cp.bootstrapResolvers = []netip.AddrPort{netip.MustParseAddrPort("9.9.9.9:53")}
+	cp.realDomainSet = &bloom.BloomFilter{}
+	verified := cp.probeAndUpdateRealDomain("spoofed-sni.example")
+	vs.Assert("a name is verified exactly when the probe found an address for it", verified == (has4 || has6))
+	vs.Assert("and only a verified name enters the set of genuine names", (added > 0) == verified)
 }
